@@ -32,6 +32,30 @@ func (p *Program) funcDisplayName(fc *FuncContract) string {
 	return n + fc.Name
 }
 
+// VerifyLit verifies the N-th function literal (source order) of root's declaration against its `lit N:` contract.
+// Variables captured from the enclosing function are arbitrary values of their types.
+func VerifyLit(p *Program, ss *Sorts, reg *SpecReg, root *FuncContract, ord string, lc *FuncContract) (res *FuncResult) {
+	var lit *ast.FuncLit
+	n := 0
+	if root.Decl != nil && root.Decl.Body != nil {
+		ast.Inspect(root.Decl.Body, func(nd ast.Node) bool {
+			if fl, ok := nd.(*ast.FuncLit); ok {
+				n++
+				if fmt.Sprint(n) == ord && lit == nil {
+					lit = fl
+				}
+			}
+			return true
+		})
+	}
+	lc.Pkg, lc.Obj, lc.Decl = root.Pkg, root.Obj, root.Decl
+	if len(lc.Props) == 0 {
+		lc.Props = root.Props
+	}
+	lc.RecvType, lc.litNode = root.RecvType, lit
+	return VerifyFunc(p, ss, reg, lc)
+}
+
 func VerifyFunc(p *Program, ss *Sorts, reg *SpecReg, fc *FuncContract) (res *FuncResult) {
 	fv := &FV{p: p, ss: ss, reg: reg, fc: fc, pk: fc.Pkg, info: fc.Pkg.TypesInfo,
 		entryVars: map[string]Term{}, entryGhost: map[string]Term{}, specParam: map[string]types.Object{},
@@ -39,6 +63,9 @@ func VerifyFunc(p *Program, ss *Sorts, reg *SpecReg, fc *FuncContract) (res *Fun
 		notes: map[string]int{}, oblSeq: map[string]int{}, maxPath: 4000,
 		ifaceLink: map[string]Term{}, boxed: map[string]Term{}, assumedUsed: map[string]bool{}, calleesUsed: map[string]bool{}}
 	fv.curFunc = p.funcDisplayName(fc)
+	if fc.litNode != nil || strings.Contains(fc.Name, "$lit") {
+		fv.curFunc = strings.Replace(fv.curFunc, "$lit", "/lit", 1)
+	}
 	res = &FuncResult{Contract: fc, Name: fv.curFunc}
 	if v := fc.Opts["paths"]; v != "" {
 		fmt.Sscan(v, &fv.maxPath)
@@ -74,6 +101,12 @@ func VerifyFunc(p *Program, ss *Sorts, reg *SpecReg, fc *FuncContract) (res *Fun
 	fd := fc.Decl
 	if fd == nil || fd.Body == nil {
 		fv.abort(token.NoPos, "no source for %s", fv.curFunc)
+	}
+	if strings.Contains(fc.Name, "$lit") {
+		if fc.litNode == nil {
+			fv.abort(fd.Pos(), "stale contract: function literal of %s not found", fv.curFunc)
+		}
+		return fv.verifyLitBody(res, fd, fc.litNode)
 	}
 	for _, m := range fc.Modifies {
 		fv.modset[m] = true
@@ -291,4 +324,96 @@ func (fv *FV) cover(st *State, kind string, pos token.Pos, text string) {
 		fv:    fv,
 	}
 	fv.obls = append(fv.obls, o)
+}
+
+// verifyLitBody: entry state = arbitrary captured variables + literal parameters; ensures checked at each return of the literal.
+func (fv *FV) verifyLitBody(res *FuncResult, fd *ast.FuncDecl, lit *ast.FuncLit) *FuncResult {
+	fc := fv.fc
+	for _, m := range fc.Modifies {
+		fv.modset[m] = true
+	}
+	n := 0
+	ast.Inspect(lit.Body, func(nd ast.Node) bool {
+		switch s := nd.(type) {
+		case *ast.ForStmt:
+			n++
+			fv.loopOrd[s] = fmt.Sprint(n)
+		case *ast.RangeStmt:
+			n++
+			fv.loopOrd[s] = fmt.Sprint(n)
+		}
+		return true
+	})
+	st := &State{vars: map[types.Object]Term{}, alias: map[types.Object]*Path{}, ghost: map[string]Term{}}
+	sig := fv.info.TypeOf(lit).(*types.Signature)
+	fv.curSig = sig
+	// captured variables and parameters
+	ast.Inspect(lit, func(nd ast.Node) bool {
+		id, ok := nd.(*ast.Ident)
+		if !ok {
+			return true
+		}
+		v, ok := fv.info.ObjectOf(id).(*types.Var)
+		if !ok || v.IsField() || v.Pkg() == nil || v.Parent() == v.Pkg().Scope() {
+			return true
+		}
+		if _, has := st.vars[v]; has {
+			return true
+		}
+		declaredOutside := v.Pos() < lit.Body.Pos() || v.Pos() > lit.End()
+		isParam := v.Pos() >= lit.Type.Pos() && v.Pos() < lit.Body.Pos()
+		if declaredOutside || isParam {
+			sym := fv.fresh(v.Name(), fv.ss.Of(v.Type()))
+			st.vars[v] = sym
+			fv.entryVars[v.Name()] = sym
+			fv.specParam[v.Name()] = v
+			if so := fv.ss.Of(v.Type()); so.Kind == KPtr && v.Name() != "_" && declaredOutside {
+				// the enclosing method's receiver
+				if fd.Recv != nil && len(fd.Recv.List) == 1 && len(fd.Recv.List[0].Names) == 1 && fv.info.Defs[fd.Recv.List[0].Names[0]] == v {
+					st.assume(tNot(tEq(sym, ptrNil(so))))
+				}
+			}
+		}
+		return true
+	})
+	fv.resNames = fc.Results
+	for _, g := range fv.reg.gorder {
+		sym := fv.fresh(g+"_0", fv.reg.ghosts[g].Sort)
+		st.ghost[g] = sym
+		fv.entryGhost[g] = sym
+	}
+	for _, c := range fc.Requires {
+		t, err := fv.specEnv(st, token.NoPos, nil, false).EvalBool(c.X)
+		if err != nil {
+			fv.abort(lit.Pos(), "requires %q: %v", c.Text, err)
+		}
+		st.assume(t)
+	}
+	fv.cover(st, "cover-entry", lit.Pos(), "requires and entry assumptions are satisfiable")
+	ctl := &Ctl{brk: map[string]Kont{}, cont: map[string]Kont{}}
+	ctl.ret = func(s2 *State, vals []Term) {
+		for j := len(s2.defers) - 1; j >= 0; j-- {
+			d := s2.defers[j]
+			if dl, ok := stripParens(d.call.Fun).(*ast.FuncLit); ok {
+				fv.inlineLit(s2, dl, d.call.Args, d.call.Pos())
+			} else if !fv.isBuiltinCall(d.call, "close") {
+				fv.evalCall(s2, d.call)
+			}
+		}
+		s2.defers = nil
+		for _, c := range fc.Ensures {
+			t, err := fv.specEnv(s2, token.NoPos, vals, true).EvalBool(c.X)
+			if err != nil {
+				fv.abort(lit.Pos(), "ensures %q: %v", c.Text, err)
+			}
+			fv.assert(s2, "post", t, lit.Pos(), c.Text)
+		}
+		for _, g := range fv.reg.gorder {
+			if !fv.modset[g] && s2.ghost[g].S != fv.entryGhost[g].S {
+				fv.assert(s2, "frame", tEq(s2.ghost[g], fv.entryGhost[g]), lit.Pos(), "ghost "+g+" is not modified")
+			}
+		}
+	}
+	fv.execBlock(st, lit.Body.List, ctl, func(s2 *State) { ctl.ret(s2, nil) })
+	return res
 }
